@@ -979,8 +979,14 @@ func runC16() {
 	for _, t := range c16GenShapes(rng, nShapes) {
 		envs = append(envs, c16StructEnv(t, rng.Intn(2) == 0))
 	}
+	labels := map[string]int{}
 	for _, s := range c16MapEnvs() {
-		envs = append(envs, c16MapEnv(s))
+		e := c16MapEnv(s)
+		labels[e.label]++
+		if labels[e.label] > 1 {
+			e.label = fmt.Sprintf("%s#%d", e.label, labels[e.label])
+		}
+		envs = append(envs, e)
 	}
 
 	if *replay != "" {
